@@ -286,7 +286,9 @@ def r08_4b(run):
             seen = assigned_name(n)
     if seen is None or arr not in ids or f"{arr}.base" not in ids:
         raise AnalysisError(f"{fi.short}: cannot identify the seen-set / id locals")
-    assume = {f"{ids[arr]} not in {seen}": True, f"{arr}.base is not None": True, f"{ids[arr + '.base']} not in {seen}": True}
+    # scenario: an unseen array with an (ndarray) base that was not seen either -- both spellings of "has a base"
+    assume = {f"{ids[arr]} not in {seen}": True, f"{arr}.base is not None": True, f"isinstance({arr}.base, np.ndarray)": True,
+              f"isinstance({arr}.base, ndarray)": True, f"{ids[arr + '.base']} not in {seen}": True}
     cfg = build_cfg(run, fi, assume)
     head = cfg.node_for(loops[0])
     for label, yl in (("base", base_y), ("array", arr_y)):
@@ -595,7 +597,9 @@ def r08_6(run):
                    "no lock_arr_writeability(<result>.data.base): writing into a view leaves its owner writeable inside a live graph")
             continue
         cfg2 = build_cfg(run, fi, dict(assume, **{"out is not None": True, f"{res}.data.base is not None": True,
-                                                   f"out is not None and {res}.data.base is not None": True}))
+                                                   f"isinstance({res}.data.base, np.ndarray)": True, f"isinstance({res}.data.base, ndarray)": True,
+                                                   f"out is not None and {res}.data.base is not None": True,
+                                                   f"out is not None and isinstance({res}.data.base, np.ndarray)": True}))
         ns = {cfg2.stmt_node_containing(c) for c in base_locks}
         ns.discard(None)
         rn2 = cfg2.node_for(r)
@@ -604,6 +608,58 @@ def r08_6(run):
                "under {out is not None, result.data.base is not None} the base lock cuts every path to the return" if ok else
                "an extra condition can skip the lock of the out= target's base (e.g. 'already tracked'): its count is then one short and the "
                "first graph to be cleared unlocks it under the op that wrote into the view")
+
+
+def r08_11(run):
+    """`ndarray.base` is "the object the memory comes from": an ndarray, but also bytes / mmap / the DummyArray of NumPy's stride tricks.
+    Wherever the lock machinery treats `<arr>.base` as an array (reads .flags, yields it to the locking loop, locks or registers it), the use must
+    be guarded by an ndarray type test; `is not None` lets a foreign object through, the lock routine raises AttributeError half-way and the
+    locks already taken are never released."""
+    n = 0
+    for fi in run.project.all_functions():
+        in_lock = fi.module.name == LOCKMOD
+        uses = []
+        for x in own_nodes(fi.node):
+            if not (isinstance(x, ast.Attribute) and x.attr == "base" and isinstance(x.ctx, ast.Load)):
+                continue
+            recv = norm(x.value)
+            if not (in_lock or recv.endswith(".data")):
+                continue  # Tensor.base (a tensor or None) is something else
+            par = getattr(x, "_parent", None)
+            as_array = None
+            if isinstance(par, ast.Attribute) and par.value is x:
+                as_array = f"reads .{par.attr}"
+            elif isinstance(par, (ast.Yield, ast.YieldFrom)):
+                as_array = "is yielded to the locking loop"
+            elif isinstance(par, ast.Call) and x in par.args:
+                callee = (dotted(par.func) or "").split(".")[-1]
+                if callee in ("lock_arr_writeability", "append", "_release_lock_on_arr_writeability", "force_lock_tensor_and_creators"):
+                    as_array = f"is passed to {callee}"
+            if as_array:
+                uses.append((x, as_array))
+        if not uses:
+            continue
+        cfg = build_cfg(run, fi)
+        for x, how in uses:
+            n += 1
+            nx_ = cfg.stmt_node_containing(x)
+            txt = norm(x)
+            tests = [t for t, s in cfg.stmt.items() if cfg.label[t] == "If" and f"isinstance({txt}, " in norm(s) and "ndarray" in norm(s)]
+            ok = nx_ is not None and any(cfg.edge_dominates(t, "true", nx_) or (t == nx_ and _conj_before(cfg.stmt[t], txt, x)) for t in tests)
+            run.ob("R08.11", loc(fi, x), fi.short, f"`{txt}` {how} only under isinstance({txt}, np.ndarray)", ok,
+                   "guarded by an ndarray type test" if ok else
+                   f"`{txt}` may be a non-array buffer owner (bytes, mmap, stride-tricks DummyArray): guarded by `is not None` only, the lock machinery raises "
+                   f"AttributeError on it after other operands were already locked, and those locks are never released")
+    run.count("array-typed uses of ndarray.base in the lock machinery", n)
+
+
+def _conj_before(test: ast.AST, txt: str, use: ast.AST) -> bool:
+    """`isinstance(X.base, np.ndarray) and X.base.flags...`: the use sits in a later conjunct of the same test"""
+    if isinstance(test, ast.BoolOp) and isinstance(test.op, ast.And):
+        for i, v in enumerate(test.values):
+            if f"isinstance({txt}, " in norm(v) and "ndarray" in norm(v):
+                return any(use in list(ast.walk(w)) for w in test.values[i + 1:])
+    return False
 
 
 def check(run):
@@ -633,5 +689,7 @@ def check(run):
     r08_9(run)
     r08_10(run)
     r08_6(run)
+    run.rule("R08.11", "the lock machinery treats `<arr>.base` as an array only under an ndarray type test", floor=3)
+    r08_11(run)
     run.assume("may-raise = explicit `raise` (not `# pragma: no cover`) reachable through resolved repo calls; NumPy/builtin calls "
                "outside the guarded forward call are assumed not to raise")
